@@ -42,6 +42,7 @@ class Engine(ExprMixin, CallMixin, BuiltinMixin, ApplyMixin, StmtMixin, _Base):
         fr.current_exc = None
         fr.entry_state = None
         fr.abstracted = []
+        fr.lemmas_used = set()
 
     def emit(self, kind, name, assumptions, goal, fr, line, text, props):
         fi = fr.fi
@@ -50,9 +51,11 @@ class Engine(ExprMixin, CallMixin, BuiltinMixin, ApplyMixin, StmtMixin, _Base):
         key = self.current_key
         short = key.split("::")[-1]
         mod = key.split("::")[0].replace("json_to_models/", "").replace(".py", "").replace("/", ".")
-        self.obligations.append(Obligation(
+        ob = Obligation(
             name=f"{mod}.{short}/{name}", kind=kind, assumptions=list(self.global_facts_ref) + assumptions, goal=goal,
-            func=key, line=line, props=props if props is not None else list(self.current_props), text=text))
+            func=key, line=line, props=props if props is not None else list(self.current_props), text=text)
+        ob.debug = getattr(self, "_debug_state", None)
+        self.obligations.append(ob)
 
     # ------------------------------------------------------------------ one function
     def verify_function(self, key: str) -> dict:
@@ -181,6 +184,9 @@ class Engine(ExprMixin, CallMixin, BuiltinMixin, ApplyMixin, StmtMixin, _Base):
         rep["callees"] = sorted(fr.callees)
         rep["effects"] = fr.effects
         rep["abstracted"] = fr.abstracted
+        missing = [n for _a, _h, n in self.side.lemmas.get(fi.key, []) if n not in fr.lemmas_used]
+        if missing:
+            raise Untranslatable(f"lemma binding lost (statement text not found): {missing}")
 
     def check_post(self, fi, c, fr, spec_fr, entry: St, st: St, val: SV, snap):
         env = dict(entry.env)
@@ -195,6 +201,7 @@ class Engine(ExprMixin, CallMixin, BuiltinMixin, ApplyMixin, StmtMixin, _Base):
         spec_fr.exit_env = st.env
         for cl in c.ensures:
             g = self.eval_clause(cl, post_st, spec_fr)
+            self._debug_state = (post_st, spec_fr)
             self.emit("post", f"post.{cl.name}", list(post_st.guards) + list(post_st.facts), g, fr, fi.lineno,
                       ast.unparse(cl.expr)[:160], cl.props)
         # constructors: every attribute written is written at `self` only (callers rely on this frame)
